@@ -8,6 +8,7 @@ import (
 	"github.com/influxdata/influxdb/v2/pkg/verifhook"
 
 	"verifharness/internal/ev"
+	"verifharness/internal/gen"
 )
 
 // DeleteDuringSnapshotKey is the known-finding key for deletes landing between Cache.Snapshot()
@@ -99,4 +100,73 @@ func (mc *Machine) DeleteDuringSnapshot(series []string, min, max int64) {
 		}
 	}
 	mc.noteSnapshot()
+}
+
+// RunInSnapshotWindow starts Engine.WriteSnapshot on another goroutine, holds it right after
+// Cache.Snapshot() returned (the cache's values are in the pending snapshot, not yet in a TSM
+// file), runs fn on the calling goroutine, then releases the snapshot and joins it.
+func (mc *Machine) RunInSnapshotWindow(fn func()) (snapErr error, reached bool) {
+	root := mc.F.Root
+	reachedCh := make(chan struct{}, 1)
+	release := make(chan struct{})
+	fired := false
+	verifhook.Set(func(name, detail string) {
+		if name != "tsm1.snapshot.after-cache-snapshot" || !strings.HasPrefix(detail, root) || fired {
+			return
+		}
+		fired = true
+		reachedCh <- struct{}{}
+		<-release
+	})
+	done := make(chan error, 1)
+	go func() { done <- mc.F.Snapshot() }()
+	select {
+	case <-reachedCh:
+		reached = true
+	case err := <-done:
+		verifhook.Set(nil)
+		close(release)
+		fn()
+		return err, false
+	case <-time.After(30 * time.Second):
+		verifhook.Set(nil)
+		close(release)
+		mc.Rec.Inconclusive("snapshot did not reach the hook point within 30s")
+		return <-done, false
+	}
+	fn()
+	close(release)
+	snapErr = <-done
+	verifhook.Set(nil)
+	return snapErr, true
+}
+
+// WriteDuringSnapshot is a write (typically overwriting timestamps the pending snapshot holds)
+// and a full scan that both happen while a cache snapshot is in progress, followed by a full scan
+// after its commit.
+func (mc *Machine) WriteDuringSnapshot(pts []gen.WPoint) {
+	mc.Ops = append(mc.Ops, Op{Kind: "snapshotWindow:begin"})
+	before := make([]string, 0, len(mc.InCache))
+	for k := range mc.InCache {
+		before = append(before, k)
+	}
+	snapErr, reached := mc.RunInSnapshotWindow(func() {
+		mc.Write(pts)
+		mc.FullScan()
+	})
+	mc.Ops = append(mc.Ops, Op{Kind: "snapshotWindow:end"})
+	if snapErr != nil {
+		mc.fail("snapshot-error", fmt.Sprintf("WriteSnapshot around a concurrent write: %v", snapErr))
+	}
+	if reached {
+		mc.Rec.Class("step:write-and-read-inside-snapshot-window")
+		// what was in the cache before the window is in a TSM file now, the write is in the cache
+		for _, k := range before {
+			mc.InTSM[k] = true
+		}
+		if len(before) > 0 {
+			mc.TSMFilesSeen = true
+		}
+	}
+	mc.FullScan()
 }
